@@ -14,7 +14,7 @@ from sim import world as Wd
 ID = 'C08'
 LEVEL = 'exploration'
 ENGINE = 'history'
-BUDGET = {'quick': 2500, 'thorough': 100000}
+BUDGET = {'quick': 8000, 'thorough': 100000}
 WALL = {'quick': 45, 'thorough': 1500}
 RULE = ('one command per case (put, list, restore with every index, empty with/without DAYS and --dry-run, rm *) on a world where each '
         'volume has a generated .Trash state (sticky dir, non-sticky dir, symlink to sticky / non-sticky dir, regular file, dangling, '
